@@ -147,6 +147,20 @@ def percentResolution (p : Nat) (tab : DigitTab) (c : SepCfg) (lf : Option (Nat 
   let r ← digitResolution p tab c lf numberText
   pure (percentSuffix isSpace r)
 
+/-- `CJKNumberParser.per_parse`, branch `'Num' in source.data` without a k/M/G/T multiplier, on the text in front
+of the percent sign: `get_digit_value` (sign strip, `float(_get_digital_value(...))`, negate) and
+`__format(value) + '%'` — the value is a Python float here. `negSigns` = the single characters the culture's
+`negative_number_sign_regex` accepts at the start. -/
+def cjkPercentResolution (p : Nat) (tab : DigitTab) (c : SepCfg) (lf : Option (Nat × Nat)) (negSigns : List Nat)
+    (text : Str) : Except Err Str := do
+  let neg := match text with
+    | ch :: _ => negSigns.contains ch
+    | [] => false
+  let body := if neg then text.drop 1 else text
+  let v ← digitalValue p tab c body 1
+  let v := if neg then Dec.negate v else v
+  pure (Dec.formatStr lf (Dec.floatRepr v) ++ [37])
+
 /-! ### `__get_int_value` -/
 
 inductive ResolveKind
